@@ -22,6 +22,12 @@ theories/DomSpec.vos theories/DomSpec.vok theories/DomSpec.required_vos: theorie
 theories/Fringe.vo theories/Fringe.glob theories/Fringe.v.beautified theories/Fringe.required_vo: theories/Fringe.v theories/Base.vo
 theories/Fringe.vio: theories/Fringe.v theories/Base.vio
 theories/Fringe.vos theories/Fringe.vok theories/Fringe.required_vos: theories/Fringe.v theories/Base.vos
+theories/FringeProofs.vo theories/FringeProofs.glob theories/FringeProofs.v.beautified theories/FringeProofs.required_vo: theories/FringeProofs.v theories/Base.vo theories/Fringe.vo
+theories/FringeProofs.vio: theories/FringeProofs.v theories/Base.vio theories/Fringe.vio
+theories/FringeProofs.vos theories/FringeProofs.vok theories/FringeProofs.required_vos: theories/FringeProofs.v theories/Base.vos theories/Fringe.vos
+theories/Fringe2.vo theories/Fringe2.glob theories/Fringe2.v.beautified theories/Fringe2.required_vo: theories/Fringe2.v theories/Base.vo theories/Fringe.vo theories/FringeProofs.vo
+theories/Fringe2.vio: theories/Fringe2.v theories/Base.vio theories/Fringe.vio theories/FringeProofs.vio
+theories/Fringe2.vos theories/Fringe2.vok theories/Fringe2.required_vos: theories/Fringe2.v theories/Base.vos theories/Fringe.vos theories/FringeProofs.vos
 theories/DP.vo theories/DP.glob theories/DP.v.beautified theories/DP.required_vo: theories/DP.v theories/Base.vo theories/Fringe.vo
 theories/DP.vio: theories/DP.v theories/Base.vio theories/Fringe.vio
 theories/DP.vos theories/DP.vok theories/DP.required_vos: theories/DP.v theories/Base.vos theories/Fringe.vos
@@ -40,9 +46,9 @@ theories/Solver.vos theories/Solver.vok theories/Solver.required_vos: theories/S
 theories/Width.vo theories/Width.glob theories/Width.v.beautified theories/Width.required_vo: theories/Width.v theories/Base.vo
 theories/Width.vio: theories/Width.v theories/Base.vio
 theories/Width.vos theories/Width.vok theories/Width.required_vos: theories/Width.v theories/Base.vos
-theories/Run.vo theories/Run.glob theories/Run.v.beautified theories/Run.required_vo: theories/Run.v theories/Base.vo theories/Gap.vo theories/Width.vo theories/Cache.vo theories/Dom.vo theories/DomSpec.vo theories/Fringe.vo theories/DP.vo theories/Mdd.vo theories/Viz.vo theories/Table.vo theories/Solver.vo
-theories/Run.vio: theories/Run.v theories/Base.vio theories/Gap.vio theories/Width.vio theories/Cache.vio theories/Dom.vio theories/DomSpec.vio theories/Fringe.vio theories/DP.vio theories/Mdd.vio theories/Viz.vio theories/Table.vio theories/Solver.vio
-theories/Run.vos theories/Run.vok theories/Run.required_vos: theories/Run.v theories/Base.vos theories/Gap.vos theories/Width.vos theories/Cache.vos theories/Dom.vos theories/DomSpec.vos theories/Fringe.vos theories/DP.vos theories/Mdd.vos theories/Viz.vos theories/Table.vos theories/Solver.vos
+theories/Run.vo theories/Run.glob theories/Run.v.beautified theories/Run.required_vo: theories/Run.v theories/Base.vo theories/Gap.vo theories/Width.vo theories/Cache.vo theories/Dom.vo theories/DomSpec.vo theories/Fringe.vo theories/FringeProofs.vo theories/Fringe2.vo theories/DP.vo theories/Mdd.vo theories/Viz.vo theories/Table.vo theories/Solver.vo
+theories/Run.vio: theories/Run.v theories/Base.vio theories/Gap.vio theories/Width.vio theories/Cache.vio theories/Dom.vio theories/DomSpec.vio theories/Fringe.vio theories/FringeProofs.vio theories/Fringe2.vio theories/DP.vio theories/Mdd.vio theories/Viz.vio theories/Table.vio theories/Solver.vio
+theories/Run.vos theories/Run.vok theories/Run.required_vos: theories/Run.v theories/Base.vos theories/Gap.vos theories/Width.vos theories/Cache.vos theories/Dom.vos theories/DomSpec.vos theories/Fringe.vos theories/FringeProofs.vos theories/Fringe2.vos theories/DP.vos theories/Mdd.vos theories/Viz.vos theories/Table.vos theories/Solver.vos
 theories/Props/C17.vo theories/Props/C17.glob theories/Props/C17.v.beautified theories/Props/C17.required_vo: theories/Props/C17.v theories/Base.vo theories/Gap.vo
 theories/Props/C17.vio: theories/Props/C17.v theories/Base.vio theories/Gap.vio
 theories/Props/C17.vos theories/Props/C17.vok theories/Props/C17.required_vos: theories/Props/C17.v theories/Base.vos theories/Gap.vos
@@ -52,3 +58,6 @@ theories/Props/C18.vos theories/Props/C18.vok theories/Props/C18.required_vos: t
 theories/Props/C10.vo theories/Props/C10.glob theories/Props/C10.v.beautified theories/Props/C10.required_vo: theories/Props/C10.v theories/Base.vo theories/Dom.vo theories/DomProofs.vo
 theories/Props/C10.vio: theories/Props/C10.v theories/Base.vio theories/Dom.vio theories/DomProofs.vio
 theories/Props/C10.vos theories/Props/C10.vok theories/Props/C10.required_vos: theories/Props/C10.v theories/Base.vos theories/Dom.vos theories/DomProofs.vos
+theories/Props/C11.vo theories/Props/C11.glob theories/Props/C11.v.beautified theories/Props/C11.required_vo: theories/Props/C11.v theories/Base.vo theories/Fringe.vo theories/FringeProofs.vo theories/Fringe2.vo
+theories/Props/C11.vio: theories/Props/C11.v theories/Base.vio theories/Fringe.vio theories/FringeProofs.vio theories/Fringe2.vio
+theories/Props/C11.vos theories/Props/C11.vok theories/Props/C11.required_vos: theories/Props/C11.v theories/Base.vos theories/Fringe.vos theories/FringeProofs.vos theories/Fringe2.vos
